@@ -24,6 +24,16 @@ type Knobs struct {
 	// FetchMatchingRules on these other fact values, then the facts are changed in place by the caller's
 	// own Go code to the scenario's facts, and the judged call follows.
 	RefetchFrom *grl.Facts `json:"refetch_from,omitempty"`
+	// RemoveOnInstance: the rules named in "removed" are removed from each instance after it was created
+	// (KnowledgeBase.RemoveRuleEntry) instead of from the library before.
+	RemoveOnInstance bool `json:"remove_on_instance,omitempty"`
+	// OtherInstanceFirst: the data context of the judged call has been used before, for an unjudged
+	// FetchMatchingRules on ANOTHER instance of the same library.
+	OtherInstanceFirst bool `json:"other_instance_first,omitempty"`
+	// RemoveAtCycle k > 0: listener 0 calls KnowledgeBase.RemoveRuleEntry(RemoveAtCycleRule) on the instance
+	// from inside the BeginCycle notification of cycle k, i.e. while Execute is running.
+	RemoveAtCycle     uint64 `json:"remove_at_cycle,omitempty"`
+	RemoveAtCycleRule string `json:"remove_at_cycle_rule,omitempty"`
 }
 
 // Fault is one injected fault, positioned by the event number of the run.
